@@ -91,6 +91,15 @@ def compare_c01(proj, p, sc, exp):
     return bad
 
 
+def _job_two_polls(arg):
+    pack, estimator, seed = arg
+    try:
+        return ("ok", ledger.two_poll_traces(pack, estimator, seed, PIS))
+    except Exception as e:  # noqa: BLE001
+        return ("exc", {"clause": "run_raised", "estimator": estimator, "exc": type(e).__name__, "msg": str(e)[:300], "policy": pack[0]["policy"],
+                        "districtOffice": pack[0]["districtOffice"], "levels": list(pack[0]["levels"]), "tb": traceback.format_exc()[-1500:], "pack": pack})
+
+
 def _job_trace(arg):
     """code -> spec: run a pack of random scenarios, return one trace per scenario."""
     pack, estimator, seed, kw = arg
@@ -276,6 +285,18 @@ def c01(tier, seed):
     # a small separate batch contains units whose feed row names another state than their baseline row (F8 class)
     # (both policies, every estimator: under 'drop' such a feed row must be passed through as an unexpected unit)
     traces += random_traces(run, 6 if tier == "quick" else 24, seed + 9, pack_size=4, allow_mismatch=True, policies=["drop", "zero"])
+    # two polls on one feed frame that the caller updates in place: the second poll's ledger is the second feed's
+    rnd2 = random.Random(seed + 11)
+    pjobs = []
+    for n in range(6 if tier == "quick" else 30):
+        pk = [ledger.random_scenario(rnd2, rnd2.randint(4, 9), ["drop", "zero"][n % 2], False, ledger.LEVEL_LISTS[n % 2], p_weird=0.4) for _ in range(4)]
+        pjobs.append((pk, ESTIMATORS[n % 3], seed + 300 + n))
+    for status, val in common.pool().map(_job_two_polls, pjobs, chunksize=1):
+        if status == "ok":
+            traces.extend(val)
+            run.witness("second_poll_on_the_same_feed_frame")
+        else:
+            run.violation("run_raised", {k: val[k] for k in ("clause", "estimator", "policy", "districtOffice", "exc")}, val)
     for t in traces:
         kinds = {u["kind"] for u in t["sc"]["units"]}
         if kinds & {"unexpRep", "unexpNon"}:
@@ -283,7 +304,7 @@ def c01(tier, seed):
         if "county_classification" in t["sc"]["levels"] and kinds & {"unexpRep", "unexpNon"}:
             run.witness("classification_level_with_unexpected_unit")
     validate_ledger_traces(run, traces, "Trace_Ledger_C01.cfg")
-    run.finish(require_witnesses=["exported_scenarios", "trace_with_unexpected_unit", "classification_level_with_unexpected_unit"])
+    run.finish(require_witnesses=["exported_scenarios", "trace_with_unexpected_unit", "classification_level_with_unexpected_unit", "second_poll_on_the_same_feed_frame"])
 
 
 # ---------------------------------------------------------------------------------------------------------------
